@@ -60,7 +60,7 @@ CRLFx2 = CRLF * 2
 CRLFx2_LEN = len(CRLFx2)
 
 
-end_headers_patt = re.compile(br'(\r\n\r\n)|(\r(\n\r?)?)$')
+end_headers_patt = re.compile(br'(\r\n\r\n)|(\r(\n\r?)?)\Z')  # \Z: `$` would also match before a trailing LF
 
 
 class HeadersEaeter:
